@@ -2,6 +2,7 @@
 package localcachedmap
 
 import (
+	"encoding/binary"
 	"sync"
 
 	"github.com/relex/slog-agent/util"
@@ -97,6 +98,8 @@ type LocalCachedMap[G any, L any] struct {
 func (lm *LocalCachedMap[G, L]) GetOrCreate(tempKeys []string, onCreating func(permKeys []string)) L {
 	tempMergedKey := lm.keyBuffer
 	for _, tkey := range tempKeys {
+		// length-prefixed so that different key sets can never merge into the same key, e.g. ("ab","c") and ("a","bc")
+		tempMergedKey = binary.AppendUvarint(tempMergedKey, uint64(len(tkey)))
 		tempMergedKey = append(tempMergedKey, tkey...)
 	}
 	lm.keyBuffer = tempMergedKey[:0]
